@@ -65,8 +65,8 @@ def register(db):
             kwargs={"known": {}, "open": False},
             requires=[f"matches(w1, '{XSD_WS}')", f"matches(w2, '{XSD_WS}')",
                       "matches(d, '[0-9]+')", f"value == w1 + {sg!r} + d + w2"],
-            hints=[(f"strip_padded(value, w1, '{XSD_WS}', w2, {sg!r}, None, d, '[0-9]+')" if sg else f"strip_padded(value, w1, '{XSD_WS}', w2, d, '[0-9]+')"),
-                   f"int_of_signed(py_strip(value), {sg!r}, d)"],
+            hints=[(f"int_padded(value, w1, '{XSD_WS}', w2, {sg!r}, None, d, '[0-9]+')" if sg else f"int_padded(value, w1, '{XSD_WS}', w2, d, '[0-9]+')"),
+                   f"int_of_signed(py_int_strip(value), {sg!r}, d)"],
             ensures=[("xsd-value", "result == " + ("-nat(d)" if sg == "-" else "nat(d)"))],
             raises={}, returns="int", properties=P + ["C09"],
         ))
